@@ -304,8 +304,8 @@ fn main() {
         }
         // (b) decision table through the real worker
         let scenarios: Vec<String> = if ctx.quick() {
-            // one of each decisive kind: allowed (public / allow-listed / delegate) and each way of refusing
-            ["w a p - 0", "w a r r 0", "w a r - 1", "w a r o 0", "w b p - 0", "w n r ro 1"].iter().map(|s| s.to_string()).collect()
+            // (the corpus already runs the six decisive ones; these add the other allow-list shapes)
+            ["w a r o 0", "w a r ro 0", "w n r ro 1", "w b r r 1"].iter().map(|s| s.to_string()).collect()
         } else {
             all_scenarios()
         };
